@@ -5,8 +5,11 @@ import ZvbiModel.Demux.JoinStream
 A demultiplexer at a packet boundary that still holds a stale frame (not at a frame start), reading an
 intact stream of separable frames: either the first packet closes the stale frame (one extra frame,
 nothing lost), or its lines cannot be told apart from the stale ones and are appended (the merged
-frame comes out when the second packet begins: one extra frame, the first one lost).  Needs room for
-the first packet's lines (fewer than 64 in all, see finding C07-full-frame).
+frame comes out when the second packet begins: one extra frame, the first one lost).  Before fix
+dvb-demux-full-frame this needs room for the first packet's lines (at most `frameCap` = 63 in all, see
+finding C07-full-frame).  With the fix and the discard of 7c6e61c nothing is needed: a full buffer is
+closed like any other, and when the first packet's lines do not fit the overflow error discards the
+stale frame and the first packet (third case), after which the stream is read from a frame start.
 -/
 namespace Zvbi.Demux
 open Zvbi.Hamm (rev8)
@@ -18,7 +21,7 @@ assembly: no boundary is recognisable, the lines are appended, nothing is delive
 theorem pesPacketFrame_append (se : Bool) (fs : FS) (us : List DataUnit) (l : Line) (ls : List Line)
     (hnf : fs.newFrame = false) (hul : unitsLines us = some (l :: ls)) (hasc : AscFrom 0 (l :: ls))
     (hcap : fs.frame.lines.length + (l :: ls).length ≤ 64) (hgt : fs.frame.lastFrameLine < l.line) :
-    ∃ fs', pesPacketFrame 3 true se fs (encUnits us) = (fs', [], .done, [])
+    ∃ fs', pesPacketFrame cfg 3 true se fs (encUnits us) = (fs', [], .done, [])
       ∧ fs'.newFrame = false ∧ fs'.frame.lines = fs.frame.lines ++ (l :: ls).map ofLine
       ∧ fs'.frame.lastFrameLine = lastLineOf 0 (l :: ls) ∧ fs'.framePts = fs.framePts := by
   have hne : us ≠ [] := by intro h; subst h; simp [unitsLines] at hul
@@ -32,29 +35,68 @@ theorem pesPacketFrame_append (se : Bool) (fs : FS) (us : List DataUnit) (l : Li
   rw [h1]
   exact ⟨_, rfl, rfl, hl, by rw [hla]; rfl, rfl⟩
 
+/-- ... and when they do not fit into the buffer: the overflow error, nothing delivered -/
+theorem pesPacketFrame_overflow (se : Bool) (fs : FS) (us : List DataUnit) (l : Line) (ls : List Line)
+    (hnf : fs.newFrame = false) (hul : unitsLines us = some (l :: ls)) (hasc : AscFrom 0 (l :: ls))
+    (h64 : fs.frame.lines.length ≤ 64) (hcap : 64 < fs.frame.lines.length + (l :: ls).length)
+    (hgt : fs.frame.lastFrameLine < l.line) :
+    ∃ fs' rest, pesPacketFrame cfg 3 true se fs (encUnits us) = (fs', [], .err, rest) ∧ fs'.packetPts = fs.packetPts := by
+  have hne : us ≠ [] := by intro h; subst h; simp [unitsLines] at hul
+  obtain ⟨u, us', rfl⟩ := List.exists_cons_of_ne_nil hne
+  have h2 := length_encUnits_cons u us'
+  rw [pesPacketFrame]
+  simp only [hnf, Bool.false_eq_true, if_false]
+  rw [extract_eq _ _ h2]
+  obtain ⟨f', rest, h1⟩ := extractLoop_overflow (cfg := cfg) (u :: us') (l :: ls) fs.frame _ hul ⟨hgt, hasc.2⟩ h64 hcap
+    (Nat.lt_succ_self _)
+  rw [h1]
+  exact ⟨_, _, rfl, rfl⟩
+
+/-- what `arun_resync` needs of the context: the stale lines and the first packet's lines make a frame
+that can be held and closed (`frameCap`: 63 lines before fix dvb-demux-full-frame, 64 with it) - or the
+source has both the full-frame fix and the discard of 7c6e61c, then nothing but the array bound -/
+def ResyncRoom (cfg : SrcCfg) (fs : FS) (k : Nat) : Prop :=
+  fs.frame.lines.length + k ≤ frameCap cfg
+  ∨ (cfg.lateOverflow = true ∧ cfg.pesDiscards = true ∧ fs.frame.lines.length ≤ 64)
+
 /-- **resync on an intact stream**: from a context at a packet boundary holding a stale frame -/
 theorem arun_resync (fs : FS) (hnf : fs.newFrame = false) (x : Bytes × Pes) (pks : List (Bytes × Pes))
     (hp : ∀ y ∈ x :: pks, parsePes y.1 = some y.2) (hb : ∀ y ∈ x :: pks, ∀ b ∈ y.1, b < 256)
-    (hsep : Sep ((x :: pks).map fun y => y.2.lines)) (hcap : fs.frame.lines.length + x.2.lines.length < 64) :
+    (hsep : Sep cfg ((x :: pks).map fun y => y.2.lines)) (hcap : ResyncRoom cfg fs x.2.lines.length) :
     ∃ X Y rest, (arun cfg { skip := 0, lookahead := 48, fs := fs } ((x :: pks).map Prod.fst).flatten).frames = X ++ rest
       ∧ (((x :: pks).map Prod.snd).dropLast).map outOf = Y ++ rest ∧ X.length ≤ 1 ∧ Y.length ≤ 1
       ∧ (arun cfg { skip := 0, lookahead := 48, fs := fs } ((x :: pks).map Prod.fst).flatten).stop = none := by
+  have hcap64 := frameCap_le cfg
   obtain ⟨pk, p⟩ := x
   simp only [List.map_cons, Sep] at hsep
   obtain ⟨⟨hne, hasc, hlt⟩, hsep'⟩ := hsep
   have hpp : parsePes pk = some p := hp (pk, p) (List.mem_cons_self ..)
-  obtain ⟨us, hul, hstep⟩ := arun_packet (cfg := cfg) fs pk (pks.map Prod.fst).flatten p hpp
+  obtain ⟨us, hul, hstep, hstepE⟩ := arun_packet (cfg := cfg) fs pk (pks.map Prod.fst).flatten p hpp
     (hb (pk, p) (List.mem_cons_self ..))
   obtain ⟨l, ls, hls⟩ := List.exists_cons_of_ne_nil hne
   simp only at hcap
   rw [hls] at hul hasc hlt hcap
   have hp' : ∀ y ∈ pks, parsePes y.1 = some y.2 := fun y hy => hp y (List.mem_cons_of_mem _ hy)
   have hb' : ∀ y ∈ pks, ∀ b ∈ y.1, b < 256 := fun y hy => hb y (List.mem_cons_of_mem _ hy)
+  -- a frame of the stale lines and the first packet's lines can be closed when it can be held
+  have hroom : ∀ n, n ≤ fs.frame.lines.length + (l :: ls).length → n ≤ 64 → cfg.lateOverflow = true ∨ n < 64 := by
+    intro n hn1 hn2
+    rcases hcap with h | ⟨h, _, _⟩
+    · rcases frameCap_room (cfg := cfg) _ h with h | h
+      · exact Or.inl h
+      · right; omega
+    · exact Or.inl h
   by_cases hle : l.line ≤ fs.frame.lastFrameLine
   · -- the first packet closes the stale frame
-    obtain ⟨fs', hpf, hh', _⟩ := pesPacketFrame_next cfg.corSkipsEmpty
+    have hfull : cfg.lateOverflow = true ∨ fs.frame.lines.length < 64 := by
+      rcases hcap with h | ⟨h, _, _⟩
+      · rcases frameCap_room (cfg := cfg) _ h with h | h
+        · exact Or.inl h
+        · right; simp only [List.length_cons] at h; omega
+      · exact Or.inl h
+    obtain ⟨fs', hpf, hh', _⟩ := pesPacketFrame_next (cfg := cfg) cfg.corSkipsEmpty
       { fs with packetPts := p.pts, frame := { fs.frame with nDu := 0 } } us l ls hnf rfl
-      (by show fs.frame.lines.length < 64; omega) hul hasc (by omega) hle
+      hfull hul hasc (by omega) hle
     have hstep' := hstep fs' _ hpf
     obtain ⟨fsEnd, har, _⟩ := arun_stream_from (cfg := cfg) pks fs' p hp' hb' (by rw [hls]; exact hh')
       (by rw [hls]; exact hlt) hsep'
@@ -63,45 +105,78 @@ theorem arun_resync (fs : FS) (hnf : fs.newFrame = false) (x : Bytes × Pes) (pk
       rw [hstep', har]; rfl
     · simp only [List.map_cons, List.flatten_cons]
       rw [hstep', har]; rfl
-  · -- no boundary: the lines are appended to the stale frame
-    obtain ⟨fsM, hpf, hnfM, hlM, hlaM, hptsM⟩ := pesPacketFrame_append cfg.corSkipsEmpty
-      { fs with packetPts := p.pts, frame := { fs.frame with nDu := 0 } } us l ls hnf hul hasc
-      (by show fs.frame.lines.length + (l :: ls).length ≤ 64; omega)
-      (by show fs.frame.lastFrameLine < l.line; omega)
-    have hstep' := hstep fsM _ hpf
-    cases pks with
-    | nil =>
-      refine ⟨[], [], [], ?_, rfl, by simp, by simp, ?_⟩
-      · simp only [List.map_cons, List.map_nil, List.flatten_cons, List.flatten_nil] at hstep' ⊢
-        rw [hstep']; simp [arun, ARes.pre]
-      · simp only [List.map_cons, List.map_nil, List.flatten_cons, List.flatten_nil] at hstep' ⊢
-        rw [hstep']; simp [arun, ARes.pre]
-    | cons y pks' =>
-      obtain ⟨pk2, q⟩ := y
-      simp only [List.map_cons, SepFrom] at hsep'
-      obtain ⟨⟨hne2, hasc2, hlt2⟩, hfirst2, hsep2⟩ := hsep'
-      have hpq : parsePes pk2 = some q := hp' (pk2, q) (List.mem_cons_self ..)
-      obtain ⟨us2, hul2, hstep2⟩ := arun_packet (cfg := cfg) fsM pk2 (pks'.map Prod.fst).flatten q hpq
-        (hb' (pk2, q) (List.mem_cons_self ..))
-      obtain ⟨l2, ls2, hls2⟩ := List.exists_cons_of_ne_nil hne2
-      rw [hls2] at hul2 hasc2 hlt2
-      have hfl : firstLine q.lines = l2.line := by simp [firstLine, hls2]
-      obtain ⟨fsQ, hpfQ, hhQ, _⟩ := pesPacketFrame_next cfg.corSkipsEmpty
-        { fsM with packetPts := q.pts, frame := { fsM.frame with nDu := 0 } } us2 l2 ls2 hnfM rfl
-        (by show fsM.frame.lines.length < 64
-            rw [hlM]; simp only [List.length_append, List.length_map, List.length_cons] at hcap ⊢; omega)
-        hul2 hasc2 (by omega)
-        (by show l2.line ≤ fsM.frame.lastFrameLine; rw [hlaM, ← hls, ← hfl]; exact hfirst2)
-      have hstep2' := hstep2 fsQ _ hpfQ
-      obtain ⟨fsEnd, har, _⟩ := arun_stream_from (cfg := cfg) pks' fsQ q
-        (fun z hz => hp' z (List.mem_cons_of_mem _ hz)) (fun z hz => hb' z (List.mem_cons_of_mem _ hz))
-        (by rw [hls2]; exact hhQ) (by rw [hls2]; exact hlt2) hsep2
-      refine ⟨[⟨fsM.framePts, fsM.frame.lines⟩], [outOf p], ((q :: pks'.map Prod.snd).dropLast).map outOf, ?_, ?_,
-        by simp, by simp, ?_⟩
-      · simp only [List.map_cons, List.flatten_cons] at hstep' ⊢
-        rw [hstep', hstep2', har]; rfl
-      · simp only [List.map_cons, List.dropLast_cons_cons, List.cons_append, List.nil_append]
-      · simp only [List.map_cons, List.flatten_cons] at hstep' ⊢
-        rw [hstep', hstep2', har]; rfl
+  · by_cases hfit : fs.frame.lines.length + (l :: ls).length ≤ 64
+    · -- no boundary: the lines are appended to the stale frame
+      obtain ⟨fsM, hpf, hnfM, hlM, hlaM, hptsM⟩ := pesPacketFrame_append (cfg := cfg) cfg.corSkipsEmpty
+        { fs with packetPts := p.pts, frame := { fs.frame with nDu := 0 } } us l ls hnf hul hasc
+        (by show fs.frame.lines.length + (l :: ls).length ≤ 64; exact hfit)
+        (by show fs.frame.lastFrameLine < l.line; omega)
+      have hstep' := hstep fsM _ hpf
+      cases pks with
+      | nil =>
+        refine ⟨[], [], [], ?_, rfl, by simp, by simp, ?_⟩
+        · simp only [List.map_cons, List.map_nil, List.flatten_cons, List.flatten_nil] at hstep' ⊢
+          rw [hstep']; simp [arun, ARes.pre]
+        · simp only [List.map_cons, List.map_nil, List.flatten_cons, List.flatten_nil] at hstep' ⊢
+          rw [hstep']; simp [arun, ARes.pre]
+      | cons y pks' =>
+        obtain ⟨pk2, q⟩ := y
+        simp only [List.map_cons, SepFrom] at hsep'
+        obtain ⟨⟨hne2, hasc2, hlt2⟩, hfirst2, hsep2⟩ := hsep'
+        have hpq : parsePes pk2 = some q := hp' (pk2, q) (List.mem_cons_self ..)
+        obtain ⟨us2, hul2, hstep2, _⟩ := arun_packet (cfg := cfg) fsM pk2 (pks'.map Prod.fst).flatten q hpq
+          (hb' (pk2, q) (List.mem_cons_self ..))
+        obtain ⟨l2, ls2, hls2⟩ := List.exists_cons_of_ne_nil hne2
+        rw [hls2] at hul2 hasc2 hlt2
+        have hfl : firstLine q.lines = l2.line := by simp [firstLine, hls2]
+        obtain ⟨fsQ, hpfQ, hhQ, _⟩ := pesPacketFrame_next (cfg := cfg) cfg.corSkipsEmpty
+          { fsM with packetPts := q.pts, frame := { fsM.frame with nDu := 0 } } us2 l2 ls2 hnfM rfl
+          (by show cfg.lateOverflow = true ∨ fsM.frame.lines.length < 64
+              rw [hlM, List.length_append, List.length_map]
+              exact hroom _ (Nat.le_refl _) hfit)
+          hul2 hasc2 (by omega)
+          (by show l2.line ≤ fsM.frame.lastFrameLine; rw [hlaM, ← hls, ← hfl]; exact hfirst2)
+        have hstep2' := hstep2 fsQ _ hpfQ
+        obtain ⟨fsEnd, har, _⟩ := arun_stream_from (cfg := cfg) pks' fsQ q
+          (fun z hz => hp' z (List.mem_cons_of_mem _ hz)) (fun z hz => hb' z (List.mem_cons_of_mem _ hz))
+          (by rw [hls2]; exact hhQ) (by rw [hls2]; exact hlt2) hsep2
+        refine ⟨[⟨fsM.framePts, fsM.frame.lines⟩], [outOf p], ((q :: pks'.map Prod.snd).dropLast).map outOf, ?_, ?_,
+          by simp, by simp, ?_⟩
+        · simp only [List.map_cons, List.flatten_cons] at hstep' ⊢
+          rw [hstep', hstep2', har]; rfl
+        · simp only [List.map_cons, List.dropLast_cons_cons, List.cons_append, List.nil_append]
+        · simp only [List.map_cons, List.flatten_cons] at hstep' ⊢
+          rw [hstep', hstep2', har]; rfl
+    · -- no boundary and no room (repaired source only): the overflow error discards the stale frame and
+      -- this packet; the rest of the stream is read from a frame start
+      obtain ⟨hlo, hpd, h64⟩ : cfg.lateOverflow = true ∧ cfg.pesDiscards = true ∧ fs.frame.lines.length ≤ 64 := by
+        rcases hcap with h | h
+        · exact absurd (Nat.le_trans h hcap64) hfit
+        · exact h
+      obtain ⟨fsE, restE, hpf, _⟩ := pesPacketFrame_overflow (cfg := cfg) cfg.corSkipsEmpty
+        { fs with packetPts := p.pts, frame := { fs.frame with nDu := 0 } } us l ls hnf hul hasc
+        (by show fs.frame.lines.length ≤ 64; exact h64)
+        (by show 64 < fs.frame.lines.length + (l :: ls).length; omega)
+        (by show fs.frame.lastFrameLine < l.line; omega)
+      have hstep' := hstepE fsE _ restE hpf
+      have hnfE : (pesErrFs cfg fsE).newFrame = true := by simp [pesErrFs, hpd]
+      cases pks with
+      | nil =>
+        refine ⟨[], [], [], ?_, rfl, by simp, by simp, ?_⟩
+        · simp only [List.map_cons, List.map_nil, List.flatten_cons, List.flatten_nil] at hstep' ⊢
+          rw [hstep']; simp [arun, ARes.pre]
+        · simp only [List.map_cons, List.map_nil, List.flatten_cons, List.flatten_nil] at hstep' ⊢
+          rw [hstep']; simp [arun, ARes.pre]
+      | cons y pks' =>
+        simp only [List.map_cons, SepFrom] at hsep'
+        obtain ⟨hok2, _, hsep2⟩ := hsep'
+        obtain ⟨fsEnd, har, _⟩ := arun_stream_start (cfg := cfg) y pks' (pesErrFs cfg fsE) hnfE hp' hb'
+          (by simp only [List.map_cons, Sep]; exact ⟨hok2, hsep2⟩)
+        refine ⟨[], [outOf p], (((y :: pks').map Prod.snd).dropLast).map outOf, ?_, ?_, by simp, by simp, ?_⟩
+        · simp only [List.map_cons, List.flatten_cons] at hstep' har ⊢
+          rw [hstep', har]; rfl
+        · simp only [List.map_cons, List.dropLast_cons_cons, List.cons_append, List.nil_append]
+        · simp only [List.map_cons, List.flatten_cons] at hstep' har ⊢
+          rw [hstep', har]; rfl
 
 end Zvbi.Demux
